@@ -60,7 +60,7 @@ def client(**kw):
     return d
 
 
-def login_sasl(sid="s1", sm=False, resumable=False, session=False, smid="smid-1", roster=True, mechs=("PLAIN",), c=0, bind_jid=JID):
+def login_sasl(sid="s1", sm=False, resumable=False, session=False, smid="smid-$CONN", roster=True, mechs=("PLAIN",), c=0, bind_jid=JID):
     """protocol-conforming STARTTLS-less SASL + bind (+ session) (+ stream management) login, server side"""
     st = [dict(op="connect", c=c), A("stream:stream", c=c), S(hdr(sid) + features(f_mechs(mechs)), c=c),
           A("auth", c=c), S("<success xmlns='%s'/>" % NS_SASL, restart=True, c=c),
@@ -94,14 +94,14 @@ def signals(journal, name=None, c=None):
     return [e for e in journal if e["ev"] == "cli_sig" and (name is None or e["name"] == name) and (c is None or e["c"] == c)]
 
 
-def relogin(sid="s2", resume="accept", sm=True, resumable=True, smid="smid-2", roster=True, c=0, h=None, mechs=("PLAIN",)):
+def relogin(sid="s2", resume="accept", sm=True, resumable=True, smid="smid-$CONN", roster=True, c=0, h=None, mechs=("PLAIN",)):
     """second and later connections of a client that had stream management: the client asks to resume.
     resume: 'accept' (resumed with the server's real count unless h is given), 'fail' (then bind + enable again), 'none' (server no longer offers sm)"""
     st = [dict(op="connect", c=c), A("stream:stream", c=c), S(hdr(sid) + features(f_mechs(mechs)), c=c),
           A("auth", c=c), S("<success xmlns='%s'/>" % NS_SASL, restart=True, c=c),
           A("stream:stream", c=c), S(hdr(sid + "b") + features(F_BIND, F_SM if resume != "none" else ""), c=c)]
     if resume == "accept":
-        st += [A("resume", c=c), S("<resumed xmlns='%s' h='%s' previd='smid-1'/>" % (NS_SM, "$SMIN_PREV" if h is None else h), smOn=True, smResume=True, c=c)]
+        st += [A("resume", c=c), S("<resumed xmlns='%s' h='%s' previd='$PREVID'/>" % (NS_SM, "$SMIN_PREV" if h is None else h), smOn=True, smResume=True, c=c)]
         return st
     if resume == "fail":
         st += [A("resume", c=c), S("<failed xmlns='%s'><item-not-found xmlns='urn:ietf:params:xml:ns:xmpp-stanzas'/></failed>" % NS_SM, c=c)]
